@@ -13,7 +13,8 @@ $CACHE/replay-target, and run as `replay <ID> <seed> <budget>`.
 
 Command line (for humans):
     concretise.py <ID> [quick|thorough] [seed]     run one property
-    concretise.py --selftest [seconds]             every property on the current tree
+    concretise.py --selftest [seconds] [features]  every property on the current tree (features: comma-separated
+                                                   library features, e.g. `unchecked`; C14 only explores with them)
 """
 import os
 import re
@@ -78,8 +79,12 @@ def build(repo=None, features=None):
         flags = (flags + ' --cfg a4lg_ffuzzy_verif').strip()
     if flags:
         env['RUSTFLAGS'] = flags
+    cmd = ['cargo', 'build', '--release', '--offline', '--quiet', '--manifest-path', mpath]
+    if features and ('unchecked' in features or 'unsafe' in features):
+        # the library then has its `*_unchecked` entry points: build the C14 explorer of the replay crate too
+        cmd += ['--features', 'unchecked']
     try:
-        p = subprocess.run(['cargo', 'build', '--release', '--offline', '--quiet', '--manifest-path', mpath],
+        p = subprocess.run(cmd,
                            env=env, stdout=subprocess.PIPE, stderr=subprocess.PIPE, text=True, timeout=900)
     except subprocess.TimeoutExpired:
         return None, 'concretiser build timed out'
@@ -175,7 +180,8 @@ def find_failing_input(pid, violations, tier, seed):
 
 def main(argv):
     if len(argv) >= 2 and argv[1] == '--selftest':
-        binary, note = build()
+        feats = [f for f in argv[3].split(',') if f] if len(argv) > 3 else None
+        binary, note = build(features=feats)
         if binary is None:
             print(note)
             return 2
